@@ -102,8 +102,88 @@ def probe_linewrap(events):
     M.write_continue = write_continue
 
 
+def _flatten_store(d, prefix=()):
+    out = []
+    if isinstance(d, dict):
+        for k in d:
+            if k == "__line__":
+                continue
+            out += _flatten_store(d[k], prefix + (str(k),))
+    elif isinstance(d, list):
+        out.append({"p": list(prefix), "b": [x if isinstance(x, str) else repr(x) for x in d]})
+    return out
+
+
+def probe_splicer(events):
+    """Emitter side of the splicer machinery: one 'emit' trace per wrapper
+    instance (user store at _init_splicer, then push/pop/top/create calls)."""
+    from shroud import util
+
+    M = util.WrapperMixin
+    o_init, o_push, o_pop, o_top, o_create = (M._init_splicer, M._push_splicer, M._pop_splicer,
+                                              M._update_splicer_top, M._create_splicer)
+    o_wof = M.write_output_file
+
+    def lines(x):
+        if x is None:
+            return {"has": False, "b": []}
+        return {"has": True, "b": [v if isinstance(v, str) else repr(v) for v in x]}
+
+    def _init_splicer(self, splicers):
+        events.append({"e": "sp_init", "inst": id(self), "cls": type(self).__name__,
+                       "user": _flatten_store(splicers)})
+        return o_init(self, splicers)
+
+    def _push_splicer(self, name):
+        r = o_push(self, name)
+        events.append({"e": "sp_op", "inst": id(self), "op": "push", "n": str(name),
+                       "path_after": self.splicer_path})
+        return r
+
+    def _pop_splicer(self, name):
+        r = o_pop(self, name)
+        events.append({"e": "sp_op", "inst": id(self), "op": "pop", "n": str(name),
+                       "path_after": self.splicer_path})
+        return r
+
+    def _update_splicer_top(self, name):
+        r = o_top(self, name)
+        events.append({"e": "sp_op", "inst": id(self), "op": "top", "n": str(name),
+                       "path_after": self.splicer_path})
+        return r
+
+    def _create_splicer(self, name, out, default=None, force=None):
+        n0 = len(out)
+        show = bool(self.newlibrary.options.show_splicer_comments)
+        d, f = lines(default), lines(force)
+        r = o_create(self, name, out, default, force)
+        new = out[n0:]
+        path = None
+        if show and len(new) >= 2:
+            first = new[0]
+            k = first.find("splicer begin ")
+            path = first[k + len("splicer begin "):].strip() if k >= 0 else None
+            new = new[1:-1]
+        events.append({"e": "sp_op", "inst": id(self), "op": "create", "n": str(name), "def": d, "force": f,
+                       "show": show, "path": path, "stack_path": self.splicer_path + str(name),
+                       "body": [v if isinstance(v, str) else repr(v) for v in new], "added": bool(r)})
+        return r
+
+    def write_output_file(self, fname, directory, output, spaces="    "):
+        events.append({"e": "write_file", "cls": type(self).__name__, "fname": fname, "dir": directory})
+        return o_wof(self, fname, directory, output, spaces)
+
+    M._init_splicer = _init_splicer
+    M._push_splicer = _push_splicer
+    M._pop_splicer = _pop_splicer
+    M._update_splicer_top = _update_splicer_top
+    M._create_splicer = _create_splicer
+    M.write_output_file = write_output_file
+
+
 PROBES = {
     "linewrap": probe_linewrap,
+    "splicer": probe_splicer,
 }
 
 
